@@ -1,4 +1,6 @@
 """C08 - mandoline 2D flattening equals the finest-level covering grid exactly."""
+import contextlib
+import io
 import random
 import numpy as np
 from harness import core, gen
@@ -90,8 +92,14 @@ def run_case(seed):
         desc = dict(seed=seed, fields=fields, limit_level=limit_arg, serial=serial, pool_order=order, meta=pf.meta,
                     field_names=keys)
         core.set_policy(order, seed + k)
-        res = core.outcome(lambda: Mandoline(path, fields=fields, limit_level=limit_arg, serial=serial,
-                                             verbose=0).slice(fformat='return'))
+        verb = random.Random(seed * 4409 + k).choice([0, 0, 1, 2, 3])
+        count(f"verbosity={verb}")
+        desc['verbose'] = verb
+
+        def cut():
+            with contextlib.redirect_stdout(io.StringIO()):
+                return Mandoline(path, fields=fields, limit_level=limit_arg, serial=serial, verbose=verb).slice(fformat='return')
+        res = core.outcome(cut)
         core.set_policy('identity', 0)
         out['evals'] += 1
         out['keys'].append(core.khash(seed, k))
